@@ -55,6 +55,34 @@ pub fn generate(rng: &mut Rng, tier: Tier, emit: &mut dyn FnMut(String)) {
         let msb = if rng.chance(1, 3) { 12 } else { rng.below(64) as u8 };
         emit(format!("shard {} {} {}", n, msb, rng.i64_boundary()));
     }
+    // tokens at the shard boundaries: the smallest biased token whose shifted value reaches
+    // ceil(k * 2^64 / n), and its two neighbours - for every k when n is small, sampled k otherwise.
+    // (A boundary is where any loss of precision in the 128-bit multiply shows; for powers of two
+    // every boundary is a multiple of 2^48, so non-powers of two matter most.)
+    let mut boundary_ns: Vec<u16> = (1..=40).collect();
+    boundary_ns.extend_from_slice(&[48, 63, 64, 65, 96, 100, 127, 128, 129, 255, 256, 257, 1000, 4095, 4097, 32767, 32769, 65535]);
+    for &n in &boundary_ns {
+        for msb in [0u8, 1, 12, 31, 47, 63] {
+            let ks: Vec<u64> = if n <= 40 { (1..n as u64).collect() } else { (0..24).map(|_| 1 + rng.below(n as u64 - 1)).collect() };
+            for k in ks {
+                // b = ceil(k * 2^64 / n) in the shifted space
+                let b = (((k as u128) << 64) + (n as u128 - 1)) / n as u128;
+                // shifted values are multiples of 2^msb: round b up to one
+                let step = 1u128 << msb;
+                let sb = (b + step - 1) / step * step;
+                if sb >= 1u128 << 64 {
+                    continue;
+                }
+                let low = (sb >> msb) as u64; // low (64 - msb) bits of the biased token
+                let high = if msb == 0 { 0 } else { rng.next() << (64 - msb as u32) };
+                let biased = high | low;
+                for d in [-1i64, 0, 1] {
+                    let t = biased.wrapping_add(d as u64).wrapping_sub(1u64 << 63) as i64;
+                    emit(format!("shard {} {} {}", n, msb, t));
+                }
+            }
+        }
+    }
     for _ in 0..2_000 * scale {
         emit(format!("port {} {}", shard_count(rng), rng.below(65536)));
     }
@@ -111,6 +139,15 @@ pub fn run(case: &str, ctx: &mut Ctx) -> String {
             let s = sharder.shard_of(Token::new(num(3)));
             if s >= n as u32 {
                 ctx.fail(format!("shard_of {} >= nr_shards {}", s, n));
+            }
+            // ScyllaDB's algorithm written out literally (the property statement): bias by 2^63, shift left
+            // by the ignored bits, multiply by the shard count, take the high 64 bits
+            let tok = Token::new(num(3)).value();
+            let biased = (tok as u64).wrapping_add(1u64 << 63);
+            let shifted = biased << (num(2) as u32 & 63);
+            let expected = ((shifted as u128 * n as u128) >> 64) as u32;
+            if s != expected {
+                ctx.fail(format!("shard_of = {} but ScyllaDB's algorithm gives {} (nr_shards {}, msb_ignore {}, token {})", s, expected, n, num(2), tok));
             }
             s.to_string()
         }
